@@ -31,4 +31,7 @@
                  'text is outside the guard',
                  '*_js theorems (Proofs/PipelineJs.v): evaluator-side caches = C20 jsstate, hypotheses '
                  'discharged from C20 + C02; modelling variables jscalls / js_of / matches / cf_of and the '
-                 'pipeline-level F6 guard (jscalls_wf, jscalls_stable) remain']}
+                 'pipeline-level F6 guard (jscalls_wf, jscalls_stable) remain',
+                 'extracted source fact Gen/DeclHash.v (decl_hash_injective): computeDeclHash keys its table '
+                 'by the full declaration encoding AND stores a fresh-unique id (uuid.New or a counter) for '
+                 'a new key - not a digest of the encoding; a change to either breaks the *_src obligations']}
